@@ -89,6 +89,9 @@ static Obj *globals;
 
 static Scope *scope = &(Scope){};
 
+// The scope of the parameter list parsed last (NULL for "(void)").
+static Scope *param_scope;
+
 // Points to the function object the parser is currently parsing.
 static Obj *current_fn;
 
@@ -583,6 +586,7 @@ static Type *declspec(Token **rest, Token *tok, VarAttr *attr) {
 // param       = declspec declarator
 static Type *func_params(Token **rest, Token *tok, Type *ty) {
   if (equal(tok, "void") && equal(tok->next, ")")) {
+    param_scope = NULL;
     *rest = tok->next->next;
     return func_type(ty);
   }
@@ -590,6 +594,12 @@ static Type *func_params(Token **rest, Token *tok, Type *ty) {
   Type head = {};
   Type *cur = &head;
   bool is_variadic = false;
+
+  // Tags and enumerators declared in a parameter list have function
+  // prototype scope, which ends with the function declarator. If the
+  // declarator belongs to a function definition, function() continues
+  // that scope for the function body.
+  enter_scope();
 
   while (!equal(tok, ")")) {
     if (cur != &head)
@@ -627,6 +637,9 @@ static Type *func_params(Token **rest, Token *tok, Type *ty) {
 
   if (cur == &head)
     is_variadic = true;
+
+  param_scope = scope;
+  leave_scope();
 
   ty = func_type(ty);
   ty->params = head.next;
@@ -3512,10 +3525,9 @@ static void mark_live(Obj *var) {
 static Token *function(Token *tok, Type *basety, VarAttr *attr) {
   // Tags and enumerators declared in the parameter list belong to
   // the scope of the function, not to the enclosing scope.
-  enter_scope();
+  param_scope = NULL;
   Type *ty = declarator(&tok, tok, basety);
-  Scope *fn_scope = scope;
-  leave_scope();
+  Scope *fn_scope = param_scope;
 
   if (!ty->name)
     error_tok(ty->name_pos, "function name omitted");
@@ -3560,7 +3572,10 @@ static Token *function(Token *tok, Type *basety, VarAttr *attr) {
 
   current_fn = fn;
   locals = NULL;
-  scope = fn_scope;
+  if (fn_scope)
+    scope = fn_scope;
+  else
+    enter_scope();
   create_param_lvars(ty->params);
 
   // A buffer for a struct/union return value is passed
@@ -3636,12 +3651,8 @@ static bool is_function(Token *tok) {
   if (equal(tok, ";"))
     return false;
 
-  // This is only a lookahead: tags declared in a parameter list
-  // must not be left behind in the current scope.
   Type dummy = {};
-  enter_scope();
   Type *ty = declarator(&tok, tok, &dummy);
-  leave_scope();
   return ty->kind == TY_FUNC;
 }
 
